@@ -6,13 +6,13 @@ from hypothesis import strategies as st
 
 from .. import feasible, gen, obs
 from .. import fingerprint as fp
-from ..lib import Driver
+from ..lib import Driver, disturb, fork
 
 ID = "C06"
 RULE = (
     "Generated: (a) no filter: instance of any shape incl. zero durations and "
     "flexible operations; (b) a composition of 1-4 built-in filters: instance "
-    "with positive durations; x choice sequence over available_operations(), optionally after an abandoned episode and a reset(), the new episode then optionally starting with an equally long stretch in which the dispatcher is not queried. "
+    "with positive durations; x choice sequence over available_operations(), optionally after an abandoned episode and a reset(), the new episode then optionally starting with an equally long stretch in which the dispatcher is not queried; optionally the dispatcher is deep-copied at a generated step, the copy dispatched and queried (a look-ahead), the original continued, and both compared with their own models. "
     "Oracle along the history, read from the real dispatcher: current_time() "
     "never decreases, completed_operations() only grows, current_time() equals "
     "the independent model's minimum start over the (model-filtered) ready "
@@ -57,6 +57,7 @@ def _cases(draw, tier):
         "observers": observers,
         "pre": draw(st.one_of(st.just(0), st.just(0), st.integers(1, 12))),
         "blind": draw(gen.pick([False, True])),
+        "fork": draw(gen.pick([None, 1, None, 0, None, 3, None, 2])),
     }
 
 
@@ -211,6 +212,8 @@ def check_case(case, ctx):
         now, done = observe("initial")
     values = {now}
     unchanged = False
+    fork_at = case.get("fork")
+    forked = None
     for k in range(n):
         a, b = history[k] if k < len(history) else (0, 0)
         if blind and k < pre:
@@ -223,6 +226,13 @@ def check_case(case, ctx):
                 ctx.fail("deadlock", f"step {k}: no available operation but {n - k} unscheduled")
                 return
             j, p, mm = drv.choose(a, b, "available")
+        if fork_at == k:
+            # a planner deep-copies the dispatcher here, looks ahead on the
+            # copy (dispatching and querying it) and comes back
+            clone, cmodel = fork(d, m)
+            disturb(clone, cmodel, inst)
+            forked = (clone, cmodel)
+            ctx.label("forked")
         drv.dispatch(j, p, mm)
         if twin is not None:
             twin.dispatch(j, p, mm)
@@ -240,6 +250,22 @@ def check_case(case, ctx):
         values.add(now2)
         now, done = now2, done2
         ctx.count("steps")
+    if forked is not None:
+        clone, cmodel = forked
+        cnow = clone.current_time()
+        cavail = cmodel.available(filters)
+        ctx.check(
+            cnow == cmodel.min_start(cavail),
+            "now-vs-model",
+            f"deep copy of the dispatcher, after the original went on: current_time()={cnow}, "
+            f"model {cmodel.min_start(cavail)} (its own history {cmodel.order})",
+        )
+        cdone = {fp.jp(o) for o in clone.completed_operations()}
+        ctx.check(
+            cdone == set(cmodel.completed(cnow)),
+            "completed-vs-model",
+            f"deep copy of the dispatcher: completed {sorted(cdone)} != {sorted(cmodel.completed(cnow))}",
+        )
     mk = d.schedule.makespan()
     rows = fp.schedule_rows(d.schedule)
     ctx.check(
